@@ -175,12 +175,15 @@ def h_device_finder(I):
     """two frequency-dependent loads; each either names an existing BusFreq or leaves it to the finder"""
     from vlib import cases as CS
     ss = CS.build([1, 2], lines=[(1, 2)], slacks=[dict(bus=1, idx='S')], pqs=[dict(bus=2, idx='D', p0=0.2, q0=0.1), dict(bus=1, idx='E', p0=0.1, q0=0.0)],
-                  setup=False, extra=[('BusFreq', dict(bus=2, idx='BF2'))])
+                  setup=False, extra=[])
+    # the existing meter carries a string index or the (falsy) number 0
+    mid = 0 if bool(I.boolean('existing_meter_has_idx_0')) else 'BF2'
+    ss.add('BusFreq', dict(bus=2, idx=mid))
     # three loads, each on bus 2 (which has a meter) or on bus 1 (which has none); a FLoad sits on the bus of its PQ
     on2 = [bool(I.boolean(f'load{k}_on_bus_2')) for k in range(3)]
     given0 = bool(I.boolean('load0_names_existing_meter')) and on2[0]
     for k in range(3):
-        ss.add('FLoad', dict(idx=f'F{k}', pq='D' if on2[k] else 'E', busf='BF2' if (k == 0 and given0) else None))
+        ss.add('FLoad', dict(idx=f'F{k}', pq='D' if on2[k] else 'E', busf=mid if (k == 0 and given0) else None))
     n0 = ss.BusFreq.n
     ss.collect_ref(); ss._list2array(); ss.link_ext_param(); ss.find_devices()      # the order System.setup uses
     found = ss.FLoad.busfreq.v
@@ -193,6 +196,46 @@ def h_device_finder(I):
     out.append(('a helper is created at most once per missing target', ss.BusFreq.n - n0 == need))
     out.append(('no two meters sit on the same bus afterwards', len(set(ss.BusFreq.bus.v)) == ss.BusFreq.n))
     return out
+
+
+def h_idx2model(I):
+    """GroupBase.idx2model / Group.get with allow_none: only an omitted (None) reference may come back as 'nothing';
+    a given reference to a device that does not exist is rejected"""
+    from vlib import cases as CS
+    ss = CS.build([1, 2], lines=[(1, 2)], slacks=[dict(bus=1, idx='S')], pqs=[dict(bus=2, idx=0, p0=0.2, q0=0.1), dict(bus=1, idx='E', p0=0.1, q0=0.0)],
+                  setup=False)
+    grp = ss.StaticLoad
+    omitted = bool(I.boolean('reference_omitted'))
+    exists = bool(I.boolean('reference_names_existing_device'))
+    zero = bool(I.boolean('existing_device_has_idx_0'))
+    allow = bool(I.boolean('allow_none'))
+    ref = None if omitted else ((0 if zero else 'E') if exists else 'NO_SUCH_DEVICE')
+    rejected, got = False, None
+    try:
+        got = grp.idx2model(ref, allow_none=allow)
+    except KeyError:
+        rejected = True
+    if omitted:
+        want_reject, want = (not allow), None
+    elif exists:
+        want_reject, want = False, ss.PQ
+    else:
+        want_reject, want = True, None
+    return [('idx2model: an unknown given reference is rejected, an omitted one only with allow_none, a valid one resolved',
+             rejected == want_reject and (rejected or got is want))]
+
+
+def h_dataselect(I):
+    """DataSelect: the optional index is used whenever it is given (also the index 0), the fallback otherwise"""
+    from andes.core.service import DataSelect
+    given = bool(I.boolean('optional_given'))
+    as_nan = bool(I.boolean('missing_value_is_nan'))
+    zero = bool(I.boolean('optional_is_idx_0'))
+    opt = (0 if zero else 7) if given else (float('nan') if as_nan else None)
+    sel = DataSelect(NS(v=[opt, 5]), NS(v=[3, 4]), name='sel')
+    out = list(sel.v)
+    return [('DataSelect takes the optional index when given (0 included) and the fallback otherwise',
+             out[0] == (opt if given else 3) and out[1] == 5)]
 
 
 def h_dangling(I):
@@ -230,6 +273,10 @@ def job(spec):
                      region=lambda v, c: c.split(' <=> ')[-1] if '<=>' in c else c)
     if kind == 'finder':
         return H.run('DeviceFinder.find_or_add', h_device_finder, region=lambda v, c: c)
+    if kind == 'idx2model':
+        return H.run('GroupBase.idx2model allow_none', h_idx2model, region=lambda v, c: c)
+    if kind == 'dataselect':
+        return H.run('DataSelect optional/fallback', h_dataselect, region=lambda v, c: c)
     if kind == 'dangling':
         return H.run('setup with a dangling required reference', h_dangling, region=lambda v, c: c)
     if kind == 'ch':
@@ -266,7 +313,7 @@ def main():
     ck.out('DeviceFinder auto-creation beyond 2 devices', 'ExtVar.link_external failures are only logged by ANDES (not judged)')
     import itertools
     jobs = [('next', p) for p in itertools.product('pn', repeat=3)] + [('dup', 0)]
-    jobs += [('find', (a, b)) for a in (True, False) for b in (True, False)] + [('backref', 10), ('backref', 0), ('finder', 0), ('dangling', 0)]
+    jobs += [('find', (a, b)) for a in (True, False) for b in (True, False)] + [('backref', 10), ('backref', 0), ('finder', 0), ('dangling', 0), ('idx2model', 0), ('dataselect', 0)]
     if thorough:
         jobs += [('ch', j) for j in crosshair_jobs(240)]
     ck.merge(core.pmap(job, jobs))
